@@ -24,7 +24,7 @@ TOKEN_RE = re.compile(r"""
     (?P<ws>\s+)
   | (?P<lifetime>'[A-Za-z_][A-Za-z0-9_]*(?!'))
   | (?P<num>0b[01_]+|0x[0-9a-fA-F_]+|\d[\d_]*(?:\.\d[\d_]*)?(?:[eE][+-]?\d+)?(?:_?(?:f32|f64|usize|u8|u16|u32|u64|i8|i16|i32|i64|isize))?)
-  | (?P<ident>[A-Za-z_][A-Za-z0-9_]*)
+  | (?P<ident>\$?[A-Za-z_][A-Za-z0-9_]*)
   | (?P<punct>::|=>|->|==|!=|<=|>=|&&|\|\||\.\.=|\.\.|\+=|-=|\*=|/=|[-+*/%=<>!&|.,;:(){}\[\]#?@^~$])
 """, re.X)
 
@@ -831,8 +831,9 @@ class Sym:
             if segs == ["usize", "MAX"] and self.curbuf is not None: return ("Nat", "(poison T %s)" % self.curbuf)
             if segs == ["usize", "MAX"]: return ("N", ("nvar", "maxu"))
             if segs[-1] in ("zero", "one") and len(segs) == 2: return ("fn", segs[-1])
-            if segs[-1] == "None": return ("opt", None)
             if segs[0] in ENUM_TYPES or (len(segs) >= 2 and segs[-2] in ENUM_TYPES): return ("enum", segs[-1])
+            if segs[0] == "Self" and len(segs) == 2 and str(getattr(self, "cur_cls", "")).startswith("enum:"): return ("enum", segs[1])
+            if segs[-1] == "None": return ("opt", None)
             raise Unsupported("path %s" % "::".join(segs))
         if k == "field":
             v = self.ev(e[1], env)
@@ -934,6 +935,8 @@ class Sym:
             if f[0] == "path" and len(f[1]) >= 2 and f[1][-2] in ENUM_TYPES: return ("variant", f[1][-1], [self.ev(a, env) for a in e[2]])
             if f[0] == "path" and f[1] == ["Self", "with_config"] and len(e[2]) == 1: return ("struct", {"config": self.ev(e[2][0], env)})
             if f[0] == "path" and f[1][-1] == "Some" and len(e[2]) == 1: return ("opt", self.ev(e[2][0], env))
+            if f[0] == "path" and f[1][0] == "CircularBuffer" and f[1][-1] in ("default", "new") and not e[2]: return ("L", "[]")
+            if f[0] == "path" and f[1] == ["MaybeUninit", "new"] and len(e[2]) == 1: return self.ev(e[2][0], env)
             if f[0] == "path" and f[1][-1] in ("zero", "one") and not e[2]: return T(("zero",) if f[1][-1] == "zero" else ("one",))
             if f[0] == "path" and f[1][-1] in ("from", "into") and len(e[2]) == 1: return self.convert(self.ev(e[2][0], env))
             raise Unsupported("call of %s" % (f[1] if f[0] == "path" else f[0]))
@@ -1190,6 +1193,7 @@ class Sym:
             inner = Env()
             inner.vars["self"] = recv
             args = [self.ev(a, env) for a in args_e]
+            if len(args) == 1 and args[0][0] == "tuple" and len(pnames) == len(args[0][1]) and len(pnames) > 1: args = list(args[0][1])   # one tuple-pattern parameter
             if len(args) != len(pnames): raise Unsupported("arity of the inner filter call")
             selfcall = recv_e == ("path", ["self"])
             if selfcall:
